@@ -26,6 +26,9 @@ pub fn streams(rng: &mut Xoshiro256PlusPlus, n: usize) -> Vec<(&'static str, Vec
     v.push(("uniform", (0..n).map(|_| rng.random::<f64>() * 100.0 - 50.0).collect()));
     v.push(("heavy-tail", (0..n).map(|_| { let u: f64 = rng.random::<f64>(); 1.0 / (u + 1e-9) }).collect()));
     v.push(("periodic", (0..n).map(|i| (i % 10) as f64).collect()));
+    // one stream long enough for any periodic re-synchronisation an implementation might do
+    let long_n = n.max(6000);
+    v.push(("long-uniform", (0..long_n).map(|_| rng.random::<f64>() * 10.0).collect()));
     v.push(("paper", vec![0.02, 0.5, 0.74, 3.39, 0.83, 22.37, 10.15, 15.43, 38.62, 15.92, 34.60, 10.28, 1.47, 0.40, 0.05, 11.39, 0.27, 0.42, 0.09, 11.37]));
     v.push(("new-minima-then-maxima", (0..n).map(|i| if i < n / 2 { -(i as f64) } else { i as f64 }).collect()));
     v.push(("two-scales", (0..n).map(|i| if i % 7 == 0 { 1e12 * rng.random::<f64>() } else { rng.random::<f64>() }).collect()));
@@ -110,6 +113,49 @@ pub fn record_quantile(path: &str, seed: u64, n: usize, rep: &mut Report) {
             rep.sample(json!({"stream": name, "p": p, "length": xs.len(), "final_estimate": fin}));
         }
     }
+    // many short streams over a small integer alphabet (ties, adjacent markers adjusting on the
+    // same observation): the C15 flags and the position skeleton after every observation
+    let shorts = if n >= 10_000 { 12_000 } else { 1_500 };
+    for k in 0..shorts {
+        let p32 = [8u32, 16, 24, 4, 28][k % 5];
+        let p = p32 as f64 / 32.0;
+        let mut qt = Quantile::new(p);
+        writeln!(out, "{}", json!({"op": "new", "p32": p32, "dyadic": true})).unwrap();
+        let (mut lo, mut hi) = (f64::INFINITY, f64::NEG_INFINITY);
+        let len = 12 + k % 19;
+        for i in 0..len {
+            let x = rng.random_range(0..17) as f64;
+            let pre = markers(&qt);
+            let step = std::panic::catch_unwind(std::panic::AssertUnwindSafe(|| {
+                qt.add(x);
+                qt.quantile()
+            }));
+            let est = match step {
+                Ok(e) => e,
+                Err(_) => {
+                    writeln!(out, "{}", json!({"op": "panic", "stream": "short", "observation": i + 1})).unwrap();
+                    break;
+                }
+            };
+            lo = lo.min(x);
+            hi = hi.max(x);
+            rep.evaluations += 1;
+            let inrange = est >= lo && est <= hi;
+            let cnt = i + 1;
+            if cnt <= 5 {
+                writeln!(out, "{}", json!({"op": "small", "cnt": cnt, "len": qt.len(), "inrange": inrange, "twin_equal": true})).unwrap();
+                continue;
+            }
+            let (pre, post) = match (pre, markers(&qt)) {
+                (Some(a), Some(b)) => (a, b),
+                _ => continue,
+            };
+            let rank = pre.q.iter().filter(|&&h| h <= x).count();
+            writeln!(out, "{}", json!({"op": "add", "rank": rank, "pos": post.n, "cnt": cnt, "len": qt.len(), "minok": post.q[0] == lo, "maxok": post.q[4] == hi,
+                "sorted": post.q.windows(2).all(|w| w[0] <= w[1]), "inrange": inrange, "twin_equal": true})).unwrap();
+        }
+        rep.behaviours += 1;
+    }
     out.flush().unwrap();
     rep.counters.insert("traces".into(), rep.behaviours);
 }
@@ -165,6 +211,19 @@ fn random_list(rng: &mut Xoshiro256PlusPlus, len: usize) -> Vec<&'static str> {
     v
 }
 
+/// variance(i) agrees with variances()[i] (NaN with NaN) and lies in [0, total/4] (C13, C17)
+fn views_ok<H: HistT>(h: &H) -> bool {
+    let vs = h.variances();
+    let total: u64 = h.bins().iter().sum();
+    let t = total as f64;
+    (0..H::LEN).all(|i| {
+        let v = h.variance(i);
+        let agree = (v.is_nan() && vs[i].is_nan()) || (v - vs[i]).abs() <= 8.0 * 1.1102230246251565e-16 * t;
+        let range = total == 0 || (v >= -4.0 * 1.1102230246251565e-16 * t && v <= t / 4.0 * (1.0 + 1e-15));
+        agree && range
+    })
+}
+
 fn record_hist_typed<H: HistT>(out: &mut impl Write, rng: &mut Xoshiro256PlusPlus, n: usize, rep: &mut Report) {
     let mut w: [Option<H>; 2] = [None, None];
     writeln!(out, "{}", json!({"op": "restart"})).unwrap();
@@ -206,7 +265,7 @@ fn record_hist_typed<H: HistT>(out: &mut impl Write, rng: &mut Xoshiro256PlusPlu
             };
             let bins = h.bins();
             let total: u64 = bins.iter().sum();
-            writeln!(out, "{}", json!({"op": "add", "slot": s + 1, "x": x, "ok": ok, "bin": bin, "bins": bins, "total": total, "panicked": r.is_err()})).unwrap();
+            writeln!(out, "{}", json!({"op": "add", "slot": s + 1, "x": x, "ok": ok, "bin": bin, "bins": bins, "total": total, "panicked": r.is_err(), "views_ok": views_ok(h)})).unwrap();
         } else if choice < 90 {
             if w[1 - s].is_none() {
                 continue;
@@ -215,8 +274,9 @@ fn record_hist_typed<H: HistT>(out: &mut impl Write, rng: &mut Xoshiro256PlusPlu
             let is_merge = choice < 85;
             let h = w[s].as_mut().unwrap();
             let r = catch_unwind(AssertUnwindSafe(|| if is_merge { h.merge(&src) } else { h.add_assign(&src) }));
+            let vo = views_ok(w[s].as_ref().unwrap()) && views_ok(w[1 - s].as_ref().unwrap());
             writeln!(out, "{}", json!({"op": if is_merge { "merge" } else { "addassign" }, "dst": s + 1, "src": 2 - s, "panic": r.is_err(),
-                "bins": h.bins(), "srcbins": w[1 - s].as_ref().unwrap().bins()})).unwrap();
+                "bins": w[s].as_ref().unwrap().bins(), "srcbins": w[1 - s].as_ref().unwrap().bins(), "views_ok": vo})).unwrap();
         } else if choice < 94 {
             let k = [0u64, 1, 2, 3][rng.random_range(0..4)];
             let h = w[s].as_mut().unwrap();
@@ -248,6 +308,7 @@ pub fn record_histogram(path: &str, seed: u64, n: usize, len: usize, rep: &mut R
         rep.nontrivial.insert(hash_str(&format!("hist{len}{seed}{r}")));
         match len {
             2 => record_hist_typed::<ht::h2::Histogram>(&mut out, &mut rng, n / runs, rep),
+            3 => record_hist_typed::<ht::h3::Histogram>(&mut out, &mut rng, n / runs, rep),
             10 => {
                 if r % 2 == 0 {
                     record_hist_typed::<average::Histogram10>(&mut out, &mut rng, n / runs, rep)
@@ -363,8 +424,14 @@ fn record_len_typed<T: LenT>(out: &mut impl Write, rng: &mut Xoshiro256PlusPlus,
             }
             let src = objs[j].clone().unwrap();
             let o = objs[i].as_mut().unwrap();
-            // merge with a reference to the live source, then look at both
-            o.merge_from(objs_ref(&src));
+            // merge with a reference to the live source, then look at both; a panic of the code
+            // under test becomes an event no specification action matches
+            let merged = std::panic::catch_unwind(std::panic::AssertUnwindSafe(|| o.merge_from(objs_ref(&src))));
+            if merged.is_err() {
+                writeln!(out, "{}", json!({"op": "panic", "in": "merge", "dst": i, "src": j, "type": T::NAME})).unwrap();
+                objs[i] = None;
+                continue;
+            }
             let (l, e) = o.len_empty();
             let (sl, _) = src.len_empty();
             if l > 1e8 {
